@@ -80,7 +80,11 @@ func RecordSchema(r *rng.Rand, o FrontOpts) *spec.Node {
 			f := spec.Field{Key: key, GoName: spec.UpperFirst(key), Node: child}
 			// tag matrix: none, zog, source, zog+source, other source only
 			lk := strings.ToLower(key)
-			switch r.Intn(6) {
+			switch r.Intn(8) {
+			case 6:
+				f.Tags = map[string]string{"form": "f_" + lk} // the tag of one source means nothing to the others
+			case 7:
+				f.Tags = map[string]string{"json": "j_" + lk}
 			case 1:
 				f.Tags = map[string]string{"zog": "z_" + lk}
 			case 2:
